@@ -217,6 +217,12 @@ def pick_pressure(rng, side: str, dtype: str, pb: float, allow_zero: bool = True
         if r < 0.2 and dtype == "f64":
             # just below the bubble point: a few parts per million to a few parts per billion (still "below" in any comparison)
             return float(pb * (1.0 - 10 ** rng.uniform(-8.5, -5.2)))
+        if r < 0.3 and dtype == "f64":
+            # the last few floating-point numbers below the bubble point (Standing's Rs(p) inverts p_b(Rs) only up to rounding there)
+            y = pb
+            for _ in range(int(rng.integers(1, 7))):
+                y = float(np.nextafter(y, 0.0))
+            return y
     elif side == "above":
         x = float(rng.uniform(1.02 * pb, min(2.5 * pb, P_MAX)))
     elif side == "filler":  # a cell of the caller's buffer the view does not show: either side
@@ -299,6 +305,23 @@ def run_case(case: dict, inst: dict, seed_seq) -> dict:
         except Exception as ex:  # noqa: BLE001
             obs["outcome"] = "raises"
             obs["exc"] = f"second evaluation: {type(ex).__name__}: {ex}"
+            return obs
+        obs["unmutated"] = digest(base) == before
+    if obs["unmutated"] and case["n"] and rng.random() < 0.5:
+        # a depletion loop: the caller refills the SAME array object with the next time level's pressures (same side pattern) and
+        # evaluates again; the later answer, for the contents the array holds now, is the one that is judged
+        zero_ok = "gas" not in str(case.get("fn", ""))
+        base[...] = np.array([pick_pressure(rng, s, case["dtype"], inst["pb"], zero_ok) for s in case["base"]], dtype=base.dtype)
+        before = digest(base)
+        pristine = base.copy()
+        obs["pressures"] = [float(x) for x in view]
+        obs["base"] = [float(x) for x in base]
+        obs["refilled_in_place"] = True
+        try:
+            res = arr_call(view)
+        except Exception as ex:  # noqa: BLE001
+            obs["outcome"] = "raises"
+            obs["exc"] = f"evaluation after the caller refilled its array in place: {type(ex).__name__}: {ex}"
             return obs
         obs["unmutated"] = digest(base) == before
     obs["is_array"] = isinstance(res, np.ndarray)
